@@ -757,6 +757,9 @@ func mustHaveActivityActorsMatchObjectActors(c context.Context,
 	op vocab.ActivityStreamsObjectProperty,
 	newTransport func(c context.Context, actorBoxIRI *url.URL, gofedAgent string) (t Transport, err error),
 	boxIRI *url.URL) error {
+	if actors == nil {
+		return fmt.Errorf("cannot verify actors: activity has no 'actor' property")
+	}
 	activityActorMap := make(map[string]bool, actors.Len())
 	for iter := actors.Begin(); iter != actors.End(); iter = iter.Next() {
 		id, err := ToId(iter)
@@ -793,6 +796,9 @@ func mustHaveActivityActorsMatchObjectActors(c context.Context,
 			return fmt.Errorf("cannot verify actors: object value has no 'actor' property")
 		}
 		objActors := ac.GetActivityStreamsActor()
+		if objActors == nil {
+			return fmt.Errorf("cannot verify actors: object value has no 'actor' value")
+		}
 		for iter := objActors.Begin(); iter != objActors.End(); iter = iter.Next() {
 			id, err := ToId(iter)
 			if err != nil {
